@@ -27,6 +27,10 @@ type Pkg struct {
 	Name    string   `json:"name"`
 	Imports []string `json:"imports"` // world packages imported by non-test files
 	Files   []File   `json:"files"`
+	// ModPath/ModVersion: the module the package belongs to, if not the main
+	// module (a dependency module: other path, a version) - simulated drivers only.
+	ModPath    string `json:"mod_path,omitempty"`
+	ModVersion string `json:"mod_version,omitempty"`
 }
 
 type World struct {
@@ -122,7 +126,7 @@ func (w *World) Clone() *World {
 		}
 	}
 	for _, p := range w.Pkgs {
-		q := Pkg{Path: p.Path, Name: p.Name, Imports: append([]string(nil), p.Imports...)}
+		q := Pkg{Path: p.Path, Name: p.Name, Imports: append([]string(nil), p.Imports...), ModPath: p.ModPath, ModVersion: p.ModVersion}
 		q.Files = append([]File(nil), p.Files...)
 		c.Pkgs = append(c.Pkgs, q)
 	}
